@@ -290,14 +290,15 @@ PVarPath(cs, pos, lvl, acc) ==
          IN IF HasLB(cs, id) THEN done
             ELSE LET d == Eat(cs, id, "Dot") IN IF d = 0 THEN done ELSE PVarPath(cs, d, lvl, path)
 
-\* asm { ... }: the block ends at the first `}' CHARACTER not matched by a `{'
-\* character - whatever token those characters belong to
+\* asm { ... }: the block ends at the first `}' TOKEN not matched by a `{' token
+\* (braces inside comments and strings are part of those tokens)
 RECURSIVE CloseBrace(_, _, _)
 CloseBrace(cs, p, nest) ==
     IF p > Len(cs) THEN p
-    ELSE IF cs[p] = 123 THEN CloseBrace(cs, p + 1, nest + 1)
-    ELSE IF cs[p] = 125 THEN (IF nest = 0 THEN p ELSE CloseBrace(cs, p + 1, nest - 1))
-    ELSE CloseBrace(cs, p + 1, nest)
+    ELSE LET t == TokenAt(cs, p) IN
+         IF t.kind = "BraceOpen" THEN CloseBrace(cs, p + t.n, nest + 1)
+         ELSE IF t.kind = "BraceClose" THEN (IF nest = 0 THEN p ELSE CloseBrace(cs, p + t.n, nest - 1))
+         ELSE CloseBrace(cs, p + t.n, nest)
 
 PAsm(cs, pos) ==
     LET b == Eat(cs, pos, "BraceOpen") IN
